@@ -32,7 +32,9 @@ pub enum SchedKind {
     OldestFirst,
     /// always the highest runnable id
     NewestFirst,
-    /// worker `victim` (task id victim+1) runs only when nothing else can: a stalled node
+    /// worker `victim` (task id victim+1) runs only when nothing else can: a stalled node. The stall begins
+    /// after the victim has been scheduled `stall_after(seed)` times (0..=4, a pure function of the seed): a
+    /// worker that claimed work and is then descheduled for as long as anything else can run
     StallOne { victim: u32 },
     /// follow `trace` exactly
     Trace,
@@ -144,6 +146,9 @@ pub struct SimScheduler {
     started: bool,
     step: usize,
     last: Option<u32>,
+    /// StallOne: how often the victim is scheduled before its stall begins, and how often it has been
+    stall_after: u32,
+    victim_steps: u32,
     // PCT state
     prio: Vec<u64>,
     change_points: Vec<usize>,
@@ -153,6 +158,7 @@ pub struct SimScheduler {
 impl SimScheduler {
     pub fn new(spec: SchedSpec, trace: Option<Vec<u32>>, log: Arc<Mutex<ExecLog>>) -> Self {
         let mut rng = Rng::new(spec.seed);
+        let spec_seed = spec.seed;
         let mut change_points = Vec::new();
         if let SchedKind::Pct { depth, est_steps } = spec.kind {
             for _ in 1..depth.max(1) {
@@ -168,6 +174,8 @@ impl SimScheduler {
             started: false,
             step: 0,
             last: None,
+            stall_after: (vmodel::rng::mix(&[spec_seed, 0x57A1_1AF7]) % 5) as u32,
+            victim_steps: 0,
             prio: Vec::new(),
             change_points,
             next_low: 0,
@@ -227,6 +235,10 @@ impl SimScheduler {
                 let vid = victim + 1;
                 let others: Vec<u32> = ids.iter().copied().filter(|&i| i != vid).collect();
                 if others.is_empty() {
+                    vid
+                } else if self.victim_steps < self.stall_after && ids.contains(&vid) {
+                    // before the stall: the victim is preferred, so that it gets to claim work first
+                    self.victim_steps += 1;
                     vid
                 } else {
                     if others.len() < n {
